@@ -249,7 +249,62 @@ impl<F: Fl> FSess<F> {
     }
 }
 
+/// family "fstar": two star-shaped polygons in GENERAL POSITION - vertices at random angles and radii
+/// around two nearby centres, each optionally with a star-shaped hole well inside: no contact of any
+/// kind is exact, every meeting point is a proper crossing at an irrational place. Witness candidates are
+/// random points of the common box. (Run as a FIXED batch: its seed does not depend on VERIF_SEED.)
+fn star<F: Fl>(rng: &mut Rng, cx: f64, cy: f64, rmin: f64, rmax: f64, n: usize, cw: bool) -> LineString<F> {
+    let mut angles: Vec<f64> = (0..n).map(|i| (i as f64 + 0.15 + 0.7 * unit(rng).abs()) / n as f64 * std::f64::consts::TAU).collect();
+    if cw {
+        angles.reverse();
+    }
+    let mut cs: Vec<Coord<F>> = angles
+        .iter()
+        .map(|a| {
+            let r = rmin + (rmax - rmin) * unit(rng).abs();
+            Coord { x: F::from_f64(cx + r * a.cos()), y: F::from_f64(cy + r * a.sin()) }
+        })
+        .collect();
+    let f = cs[0];
+    cs.push(f);
+    LineString(cs)
+}
+
+fn star_session<F: Fl>(sid: u64, fam: &str, seed: u64, kind: &str) -> Sess {
+    let mut rng = Rng::new(seed);
+    let e = if F::NAME == "f32" { rng.range(-6, 6) } else { rng.range(-30, 30) };
+    let s = 2f64.powi(e as i32) * (1.0 + 0.5 * unit(&mut rng).abs());
+    let (ox, oy) = (unit(&mut rng) * 8.0 * s, unit(&mut rng) * 8.0 * s);
+    let mut mk = |rng: &mut Rng, cx: f64, cy: f64| -> MultiPolygon<F> {
+        let n = rng.range(4, 11) as usize;
+        let ext = star::<F>(rng, cx, cy, 2.0 * s, 4.0 * s, n, false);
+        let nh = rng.range(3, 6) as usize;
+        let holes = if rng.chance(1, 3) { vec![star::<F>(rng, cx, cy, 0.5 * s, 1.4 * s, nh, true)] } else { vec![] };
+        MultiPolygon(vec![Polygon::new(ext, holes)])
+    };
+    let a = mk(&mut rng, ox, oy);
+    let d = (unit(&mut rng) * 4.0 * s, unit(&mut rng) * 4.0 * s);
+    let b = mk(&mut rng, ox + d.0, oy + d.1);
+    let mx = max_abs(&a).max(max_abs(&b)).max(f64::MIN_POSITIVE);
+    let mexp = mx.log2().floor() as i32 + 1;
+    let ws: Vec<(f64, f64)> = (0..40).map(|_| (ox + d.0 / 2.0 + unit(&mut rng) * 6.5 * s, oy + d.1 / 2.0 + unit(&mut rng) * 6.5 * s)).collect();
+    let wits = format!("[{}]", ws.iter().map(|(x, y)| format!("[\"{:016x}\",\"{:016x}\"]", x.to_bits(), y.to_bits())).collect::<Vec<_>>().join(","));
+    let mut fs = FSess::<F> { s: Sess::new(sid, kind, fam, seed), vals: Default::default(), wits, mexp, n: 0 };
+    fs.def("A", a);
+    fs.def("B", b);
+    for (op, _) in run::OPS {
+        let (px, py) = (*rng.pick(&['p', 'm']), *rng.pick(&['p', 'm']));
+        fs.call(op, "A", "B", px, py);
+    }
+    let op = *rng.pick(&["int", "union", "xor", "diff"]);
+    fs.call(op, "B", "A", 'm', 'm');
+    fs.s
+}
+
 fn session<F: Fl>(sid: u64, fam: &str, seed: u64, o: &Opts, shape: &str, kind: &str) -> Sess {
+    if fam == "fstar" {
+        return star_session::<F>(sid, fam, seed, kind);
+    }
     let mut rng = Rng::new(seed);
     let base = fam.strip_prefix("rot-").expect("float families are named rot-<lattice family>");
     let l = loop {
